@@ -137,6 +137,17 @@ Theorem C05_assert_static_refuted :
 Proof. exact assert_static_refuted. Qed.
 Print Assumptions C05_assert_static_refuted.
 
+(** The same static check compares signatures with the depth-first method: T5{T3;T0} with T0.M() at depth 1 and
+    T2.M(int) at depth 2 through T3 implements interface{ M() }, yet i.(T5) and i.( *T5) are rejected. *)
+Theorem C05_assert_static_sig_refuted :
+  y_assert U_static_sig SrcIface [(s "M", 0%N)] (Some (3, false)) (TStruct 3) A2 = AOther
+  /\ g_assert U_static_sig (Some (3, false)) (TStruct 3) A2 = ATrue
+  /\ y_assert U_static_sig SrcIface [(s "M", 0%N)] (Some (3, true)) (TPtr 3) A2 = AOther
+  /\ g_assert U_static_sig (Some (3, true)) (TPtr 3) A2 = ATrue
+  /\ g_implements U_static_sig 3 false 0 = true.
+Proof. exact assert_static_sig_refuted. Qed.
+Print Assumptions C05_assert_static_sig_refuted.
+
 (** Type switches whose clauses name concrete types take Go's clause, for every dynamic type and clause list. *)
 Theorem C05_switch_partial :
   forall U d cases, forallb concrete_target cases = true -> y_switch d cases = g_switch U d cases.
